@@ -502,6 +502,8 @@ def calculate_1d_frequencies(
     if not data_array.size:
         stats = Statistics()
     else:
+        if data_array.dtype.kind != "f" or data_array.dtype.itemsize < 8:
+            data_array = data_array.astype(float)  # (Squares of narrow types)
         stats = Statistics(
             sum=(data_array * weights_array).sum(),
             sum2=(data_array**2 * weights_array).sum(),
